@@ -140,6 +140,18 @@ func Load(repo, tier string) (*Ctx, error) {
 	if n == 0 {
 		return nil, fmt.Errorf("no in-scope packages of %s under %s", Mod, abs)
 	}
+	seamMemo := map[*types.Func]*ssa.Function{}
+	Seam = func(com *ssa.CallCommon) *ssa.Function {
+		if !com.IsInvoke() {
+			return nil
+		}
+		if f, ok := seamMemo[com.Method]; ok {
+			return f
+		}
+		f := c.InternalImpl(com)
+		seamMemo[com.Method] = f
+		return f
+	}
 	return c, nil
 }
 
@@ -335,11 +347,17 @@ func IsInvoke(com *ssa.CallCommon, m *types.Func) bool {
 }
 
 // IsCallTo reports whether the call's static callee (origin-folded) is fn.
+// Seam resolves an invoke through an internal seam (see Ctx.InternalImpl); set by Load.
+var Seam func(*ssa.CallCommon) *ssa.Function
+
 func IsCallTo(com *ssa.CallCommon, fn *ssa.Function) bool {
 	if fn == nil {
 		return false
 	}
 	cal := Callee(com)
+	if cal == nil && com.IsInvoke() && Seam != nil {
+		cal = Seam(com)
+	}
 	if cal == nil {
 		return false
 	}
